@@ -400,3 +400,45 @@ def step_write(c):
             c.ensure('state-kept-when-complete', 'wr._current_addr == cur0 and bytes(wr._data) == D[off2:]')
     else:
         c.ensure('other-address-changes-nothing', 'result is None and bytes(wr._data) == D[off2:] and wr._current_addr == cur0 and wr._addr_add == add0 and len(trace) == 0')
+
+
+# --------------------------------------------------------------------------------------- deck memories (address mapping)
+
+DM = 'cflib.crazyflie.mem.deck_memory'
+
+
+@contract('C06', 'deck.read-write-mapping', [DM + ':DeckMemory.read', DM + ':DeckMemory.write', DM + ':DeckMemoryManager._read', DM + ':DeckMemoryManager._write',
+                                             DM + ':DeckMemoryManager._new_data', DM + ':DeckMemoryManager._new_data_failed', DM + ':DeckMemory.contains'],
+          clause='reading / writing an address range of a deck memory addresses exactly base + address in the deck-memory space and reports the '
+                 'data under the deck-relative address, once; a second request while one is in flight is refused')
+def deck_mapping(c):
+    memh = c.ext('memh', returns={'read': True, 'write': True})
+    mgr = c.new(DM + ':DeckMemoryManager', 7, 0x19, 0x10000, memh)
+    # deck memory windows start above the info and command sections of the deck-memory space (firmware: 0x10000000 per deck)
+    c.int('base', 0x10000000, 2 ** 31), c.int('address', 0, 0x0FFFFFFF), c.int('length', 0, 4096)
+    dm = c.new(DM + ':DeckMemory', mgr, 0x1100)
+    c.set(dm, '_base_address', c.get('base'))
+    c.set(dm, '_bit_field1', 1 | 2 | 4 | 8)        # valid, started, readable, writable
+    c.let('mgr', mgr), c.let('dm', dm)
+    ok, bad = c.ext('read_ok'), c.ext('read_failed')
+    c.call((dm, 'read'), c.get('address'), c.get('length'), ok, bad)
+    c.ensure('read-forwarded-to-mapped-address', "raised is None and len(trace) == 1 and sent('memh.read')[0][1] == (mgr, base + address, length)")
+    c.call((dm, 'read'), c.get('address'), c.get('length'), ok, bad)
+    c.ensure('second-read-refused-while-one-is-in-flight', "raised == 'Exception' and len(sent('memh.read')) == 1")
+    outcome = c.choice('outcome', ['data', 'failed'])
+    data = c.bytes('data', 3)
+    c.reset_trace()
+    if outcome == 'data':
+        c.call((mgr, '_new_data'), mgr, c.snapshot('mapped', 'base + address'), data)
+        c.ensure('data-reported-under-relative-address-once', "raised is None and len(trace) == 1 and sent('read_ok')[0][1] == (address, data)")
+    else:
+        c.call((mgr, '_new_data_failed'), mgr, c.snapshot('mapped', 'base + address'), data)
+        c.ensure('failure-reported-under-relative-address-once', "raised is None and len(trace) == 1 and sent('read_failed')[0][1] == (address,)")
+    c.reset_trace()
+    c.call((dm, 'read'), c.get('address'), 1, ok, bad)
+    c.ensure('next-read-served', "raised is None and len(sent('memh.read')) == 1")
+    c.ensure('contains-iff-in-window', 'dm.contains(base) and dm.contains(base + dm.MEMORY_MAX_SIZE - 1) and not dm.contains(base + dm.MEMORY_MAX_SIZE) and (base == 0 or not dm.contains(base - 1))')
+    wdata = c.bytes('wdata', 4)
+    c.reset_trace()
+    c.call((dm, 'write'), c.get('address'), wdata, c.ext('write_ok'), c.ext('write_failed'))
+    c.ensure('write-forwarded-to-mapped-address', "raised is None and len(trace) == 1 and sent('memh.write')[0][1][0:3] == (mgr, base + address, wdata)")
